@@ -14,19 +14,22 @@ From PV Require Import C01.FS C03.Model C03.Proofs.
 Section Statements.
 Variable fresh_ent : gmap positive dent -> positive.
 Variable fresh_ino : gmap positive file -> positive.
+(* the process umask: files are created with perm &^ umask (create_mode); explicit chmods ignore it *)
+Variable umask : N.
 Hypothesis Hfe : forall d, d !! fresh_ent d = None.
 Hypothesis Hfi : forall m, m !! fresh_ino m = None.
-Notation api_i := (api_i fresh_ent fresh_ino).
+Notation api_i := (api_i fresh_ent fresh_ino umask).
 
 (* success_publishes: on Ok the destination name is bound to an inode that holds exactly the output;
-   its mode is the mode the destination had before (through symlinks) if the name existed, else 0666&^umask;
+   its mode is the mode the destination had before (through symlinks) if the name existed — WHATEVER the
+   umask —, else 0666 &^ umask;
    every other name is bound as before — in particular no staging name remains *)
 Theorem success_publishes : forall rd inF outF b s0 s',
   api_i rd inF outF b s0 = ROk tt s' ->
-  exists d md inew, api_dest inF outF = Some d /\ mode_rule s0 d md /\
+  exists d md inew, api_dest inF outF = Some d /\ mode_rule umask s0 d md /\
     idir s' !! sp_ent d = Some (DFile inew) /\ inos s' !! inew = Some (File (output_of b) md) /\
     (forall e, e <> sp_ent d -> idir s' !! e = idir s0 !! e).
-Proof. exact (success_publishes_proof fresh_ent fresh_ino Hfe Hfi). Qed.
+Proof. exact (success_publishes_proof fresh_ent fresh_ino umask Hfe Hfi). Qed.
 
 (* preexisting_inodes_never_written: every write/chmod of the run hits an inode that did not exist
    before, and every pre-existing inode keeps its bytes and mode *)
@@ -35,7 +38,7 @@ Theorem preexisting_inodes_never_written : forall rd inF outF b s0 s',
   api_i rd inF outF b s0 = ROk tt s' ->
   (forall i, In i (wlog s') -> inos s0 !! i = None) /\
   (forall i f, inos s0 !! i = Some f -> inos s' !! i = Some f).
-Proof. exact (preexisting_inodes_never_written_proof fresh_ent fresh_ino Hfe Hfi). Qed.
+Proof. exact (preexisting_inodes_never_written_proof fresh_ent fresh_ino umask Hfe Hfi). Qed.
 
 (* distinct_input_unchanged: an input (regular file) named differently from the destination — also when
    the destination is a hard link or a symlink to it — is bound to the same inode with the same bytes and mode *)
@@ -45,7 +48,7 @@ Theorem distinct_input_unchanged : forall x inF outF b s0 s' d i f,
   api_dest inF outF = Some d -> sp_ent x <> sp_ent d ->
   idir s0 !! sp_ent x = Some (DFile i) -> inos s0 !! i = Some f ->
   idir s' !! sp_ent x = Some (DFile i) /\ inos s' !! i = Some f.
-Proof. exact (distinct_input_unchanged_proof fresh_ent fresh_ino Hfe Hfi). Qed.
+Proof. exact (distinct_input_unchanged_proof fresh_ent fresh_ino umask Hfe Hfi). Qed.
 
 (* alias_never_corrupts_read: whatever the relation between input and output paths, everything the body
    reads through the input descriptor, at any moment of the run, is the original content of the input *)
@@ -54,26 +57,39 @@ Theorem alias_never_corrupts_read : forall x inF outF b s0 s',
   api_i (Some x) inF outF b s0 = ROk tt s' ->
   exists i fin, resolve (idir s0) (sp_ent x) = Some i /\ inos s0 !! i = Some fin /\
     forall r, In r (reads s') -> r = Some (fdata fin).
-Proof. exact (alias_never_corrupts_read_proof fresh_ent fresh_ino Hfe Hfi). Qed.
+Proof. exact (alias_never_corrupts_read_proof fresh_ent fresh_ino umask Hfe Hfi). Qed.
 
 (* alias_is_inplace: when the output is another name of the input's inode (another spelling, a hard link,
    a symlink), the run IS the in-place update of the output name: same result, same final filesystem, same reads *)
 Theorem alias_is_inplace : forall x o b s i,
   resolve (idir s) (sp_ent x) = Some i -> resolve (idir s) (sp_ent o) = Some i ->
   api_i (Some x) (Some x) (Some o) b s = api_i (Some o) (Some o) None b s.
-Proof. exact (alias_is_inplace_proof fresh_ent fresh_ino). Qed.
+Proof. exact (alias_is_inplace_proof fresh_ent fresh_ino umask). Qed.
 
 (* … and for another spelling of the same entry ("./x", absolute vs relative) it is the in-place update of the input *)
 Theorem alias_spelling_is_inplace : forall x o b s i,
   sp_ent o = sp_ent x -> resolve (idir s) (sp_ent x) = Some i ->
   api_i (Some x) (Some x) (Some o) b s = api_i (Some x) (Some x) None b s.
-Proof. exact (alias_spelling_is_inplace_proof fresh_ent fresh_ino). Qed.
+Proof. exact (alias_spelling_is_inplace_proof fresh_ent fresh_ino umask). Qed.
 
 (* CopyFile onto another name of the same file changes nothing *)
 Theorem copy_same_file_noop : forall src dst s i f,
   resolve (idir s) (sp_ent src) = Some i -> resolve (idir s) (sp_ent dst) = Some i -> inos s !! i = Some f ->
-  copy_file_i fresh_ent fresh_ino src dst s = ROk tt s.
-Proof. exact (copy_same_file_noop_proof fresh_ent fresh_ino). Qed.
+  copy_file_i fresh_ent fresh_ino umask src dst s = ROk tt s.
+Proof. exact (copy_same_file_noop_proof fresh_ent fresh_ino umask). Qed.
+
+(* the pkg/pdfcpu write path (createStagedFile + finishStagedFile: WriteReader, WriteContext's file path —
+   split / extract / …): on Ok the name is bound to a new inode holding exactly the output; an existing
+   regular destination keeps its mode whatever the umask (the staging file is created with 0666 &^ umask and
+   then chmod-ed to the destination's mode), a new destination gets 0666 &^ umask *)
+Theorem write_reader_publishes : forall path b s0 s',
+  sp_ent path <> fresh_ent (idir s0) ->
+  write_reader_i fresh_ent fresh_ino umask path b s0 = ROk tt s' ->
+  exists md, idir s' = <[sp_ent path := DFile (fresh_ino (inos s0))]> (idir s0) /\
+    inos s' = <[fresh_ino (inos s0) := File (output_of b) md]> (inos s0) /\
+    (forall i f, idir s0 !! sp_ent path = Some (DFile i) -> inos s0 !! i = Some f -> md = fmode f) /\
+    (idir s0 !! sp_ent path = None -> md = perm_new umask).
+Proof. exact (write_reader_publishes_proof fresh_ent fresh_ino umask Hfe Hfi). Qed.
 End Statements.
 
 (* outputAliasesInput is exact: true iff same entry after Abs, or both exist and resolve to one inode *)
@@ -91,6 +107,7 @@ Print Assumptions alias_never_corrupts_read.
 Print Assumptions alias_is_inplace.
 Print Assumptions alias_spelling_is_inplace.
 Print Assumptions copy_same_file_noop.
+Print Assumptions write_reader_publishes.
 Print Assumptions output_aliases_input_spec.
 
 (* non-vacuity: entry 2 = in.pdf (inode 10, bytes 7 7, mode 0640), entry 3 = symlink -> 2, entry 4 = hard
@@ -108,17 +125,24 @@ Definition ex_look (r : rr unit) (e : positive) : option dent * option file :=
 Definition ex_reads (r : rr unit) : list (option bytes) := match r with ROk _ s => reads s | RErr _ _ => [] end.
 Example C03_nonvacuous :
   (forall d, d !! fresh_ent_hi d = None) /\ (forall m, m !! fresh_ino_hi m = None) /\
-  let r := run_api_i (Some (Sp 2 0)) (Some (Sp 2 0)) (Some (Sp 3 0)) ex_body ex_s in
+  let r := run_api_i 18 (Some (Sp 2 0)) (Some (Sp 2 0)) (Some (Sp 3 0)) ex_body ex_s in
   ex_look r 3 = (Some (DFile 64), Some (File [1%N; 2%N] 416)) /\
   ex_look r 2 = (Some (DFile 10), Some (File [7%N; 7%N] 416)) /\
   ex_look r 4 = (Some (DFile 10), Some (File [7%N; 7%N] 416)) /\
   ex_look r 64 = (None, None) /\
   ex_reads r = [Some [7%N; 7%N]; Some [7%N; 7%N]] /\
-  let r2 := run_api_i (Some (Sp 2 0)) (Some (Sp 2 0)) (Some (Sp 2 1)) ex_body ex_s in
+  let r2 := run_api_i 63 (Some (Sp 2 0)) (Some (Sp 2 0)) (Some (Sp 2 1)) ex_body ex_s in
   ex_look r2 2 = (Some (DFile 64), Some (File [1%N; 2%N] 416)) /\
   ex_look r2 4 = (Some (DFile 10), Some (File [7%N; 7%N] 416)) /\
   output_aliases_input (Sp 2 0) (Sp 3 0) ex_s = true /\ output_aliases_input (Sp 2 0) (Sp 4 0) ex_s = true /\
-  output_aliases_input (Sp 2 0) (Sp 5 0) ex_s = false.
+  output_aliases_input (Sp 2 0) (Sp 5 0) ex_s = false /\
+  (* a group/other-writable destination (0664) keeps its mode under umask 022 and 077; a new one gets 0666 &^ umask *)
+  (let s664 := mk_state [(2%positive, DFile 10)] [(10%positive, File [7%N] 436)] in
+   ex_look (run_write_reader_i 18 (Sp 2 0) [BWrite [1%N]] s664) 2 = (Some (DFile 64), Some (File [1%N] 436)) /\
+   ex_look (run_write_reader_i 63 (Sp 2 0) [BWrite [1%N]] s664) 2 = (Some (DFile 64), Some (File [1%N] 436)) /\
+   ex_look (run_api_i 63 None None (Some (Sp 2 0)) [BWrite [1%N]] s664) 2 = (Some (DFile 64), Some (File [1%N] 436)) /\
+   ex_look (run_write_reader_i 18 (Sp 3 0) [BWrite [1%N]] s664) 3 = (Some (DFile 64), Some (File [1%N] 420)) /\
+   ex_look (run_write_reader_i 63 (Sp 3 0) [BWrite [1%N]] s664) 3 = (Some (DFile 64), Some (File [1%N] 384))).
 Proof.
   split; [exact fresh_ent_hi_spec|]. split; [exact fresh_ino_hi_spec|].
   repeat split; vm_compute; reflexivity.
